@@ -191,7 +191,7 @@ def schema_vs_soft(sx, name):
     T = dict(LEAVES)[name]
     decl = member_decl('Holder', name)
     if decl['base'] == 'string':
-        L = sx.choose('len', [1, 2, 3, 4, 5])
+        L = sx.choose('len', [1, 2, 3, 4, 5] if sx.tier == 'quick' else [1, 2, 3, 4, 5, 6])
         text = sx.text('t', L, alphabet='abcd09')
     else:
         lo, hi = INT_SPACE[decl['base']]
